@@ -431,6 +431,7 @@ func runC04(w *explore.Worker) {
 		cfg := explore.SchedConfig{Harness: "C04race", Params: fmt.Sprint(order), Bound: bound, FreeCost: 1, MaxSteps: 20000, Suspend: true}
 		explore.ExploreSchedules(w, cfg, c04Race(order))
 	}
+	explore.ExploreSchedules(w, explore.SchedConfig{Harness: "C04reload", Bound: bound, FreeCost: 1, MaxSteps: 20000, Suspend: true}, banReloadRace("C04"))
 	w.Max("race_deviation_bound_completed", bound)
 	cs := c04Cases(w.Thorough)
 	for i, c := range cs {
@@ -454,6 +455,16 @@ func runC04(w *explore.Worker) {
 
 func replayC04(w *explore.Worker, raw json.RawMessage) {
 	var sr explore.SchedReplay
+	if json.Unmarshal(raw, &sr) == nil && sr.Kind == "schedule" && sr.Harness == "C04reload" {
+		_, out, err := explore.RunSchedule(sr.Choices, 20000, banReloadRace("C04"))
+		if err != nil {
+			w.Broken("replay: %v", err)
+		}
+		for _, v := range out.Violations {
+			w.Violation(v.Signature, v.Detail, 0, sr)
+		}
+		return
+	}
 	if json.Unmarshal(raw, &sr) == nil && sr.Kind == "schedule" {
 		order := 0
 		fmt.Sscan(sr.Params, &order)
